@@ -44,6 +44,7 @@ func main() {
 	harness.Main("C09", "exploration",
 		harness.Layer{Name: "stress", Run: func(h *harness.H) { stress(h, "stress") }},
 		harness.Layer{Name: "delgc", Run: func(h *harness.H) { stress(h, "delgc") }},
+		harness.Layer{Name: "churn", Run: churn},
 		// fdlimit (fdlimit.go) is NOT registered: it drives a bare domain.DB with a 2-4
 		// descriptor budget, a configuration no cesium database can have (the cesium API
 		// fixes 100 per channel); the unmodified domain layer itself stalls and mis-sizes
@@ -56,6 +57,7 @@ const (
 	nWriterGroups = 5 // groups written concurrently by cesium-level writers
 	nDelGroups    = 2 // groups populated before the concurrent phase, then deleted from / GC'd
 	sharedKey     = uint32(900)
+	sharedHigh    = cskit.T0 + 500*1_000_000 // above every region the unary-level writers use
 	scratchBase   = uint32(1000)
 	nDeletes      = 40
 )
@@ -138,6 +140,13 @@ func one(h *harness.H, layer string, c int) {
 			time.Sleep(time.Duration(100+v*10) * time.Microsecond)
 			return
 		}
+		// delgc: a delete of the shared channel resolves its byte offsets (reads of the
+		// channel's files) between looking up the domains it spans and taking the index
+		// write lock; inserts by the unary-level writers may land there
+		if layer == "delgc" && call == "readat" && strings.Contains(path, "/900/") && v < 40 {
+			time.Sleep(time.Duration(100+v*5) * time.Microsecond)
+			return
+		}
 		switch {
 		case v < 2:
 			runtime.Gosched()
@@ -199,6 +208,53 @@ func one(h *harness.H, layer string, c int) {
 					for _, sm := range m.All(k) {
 						w.ever[k][string(sm.Val)] = sm.TS
 					}
+				}
+			}
+		}
+	}
+
+	// delgc: a high region of the shared channel is filled before the concurrent phase
+	// (10 End-bounded sessions = 10 domains); a worker deletes multi-domain ranges from it
+	// while the unary-level writers insert new domains into the (earlier, disjoint)
+	// regions of the same channel. Delete and insert commute (seeded change C03-3).
+	if layer == "delgc" {
+		if udb, ok := w.db.VerifUnary(sharedKey); ok {
+			rr := prng.New(int64(seed), "shared-pre", 0)
+			for d := 0; d < 10; d++ {
+				start := sharedHigh + int64(d)*100_000
+				uw, _, err := udb.OpenWriter(w.ctx, verifx.UnaryWriterConfig{
+					Start: telem.TimeStamp(start), End: telem.TimeStamp(start + 90_000),
+					Subject:   xcontrol.Subject{Key: uuid.NewString()},
+					Authority: xcontrol.AuthorityAbsolute, ErrOnUnauthorizedOpen: boolp(true),
+					EnableAutoCommit: boolp(false),
+				})
+				if err != nil {
+					h.Inconclusive("shared-prepopulate-error")
+					return
+				}
+				n := rr.Range(3, 12)
+				vals := make([][]byte, n)
+				stamps := make([]int64, n)
+				t := start
+				for j := range vals {
+					stamps[j] = t
+					vals[j] = cskit.Value(shared, t, 0)
+					t += int64(rr.Range(1, 5000))
+				}
+				_, err = uw.Write(cskit.BuildSeries(shared, vals))
+				if err == nil {
+					_, err = uw.Commit(w.ctx)
+				}
+				if _, cerr := uw.Close(); err != nil || cerr != nil {
+					h.Inconclusive("shared-prepopulate-error")
+					return
+				}
+				if w.ever[sharedKey] == nil {
+					w.ever[sharedKey] = map[string]int64{}
+				}
+				for j, st := range stamps {
+					w.model.Put(sharedKey, st, vals[j])
+					w.ever[sharedKey][string(vals[j])] = st
 				}
 			}
 		}
@@ -295,6 +351,40 @@ func one(h *harness.H, layer string, c int) {
 			}
 		}
 		delDone.Store(true)
+	})
+	spawn("sdeleter", func() {
+		rr := prng.New(int64(seed), "sdeleter", 0)
+		for i := 0; i < 14 && layer == "delgc"; i++ {
+			w.mu.Lock()
+			var high []int64
+			for _, st := range w.model.Stamps(sharedKey) {
+				if st >= sharedHigh {
+					high = append(high, st)
+				}
+			}
+			w.mu.Unlock()
+			if len(high) < 4 {
+				break
+			}
+			a := prng.Pick(rr, high)
+			b := a + int64(rr.Range(30_000, 260_000)) // one to three domains
+			err := w.db.DeleteTimeRange(w.ctx, []uint32{sharedKey}, telem.TimeRange{Start: telem.TimeStamp(a), End: telem.TimeStamp(b)})
+			w.mu.Lock()
+			w.delLog = append(w.delLog, fmt.Sprintf("shared [%d,%d) err=%v", a, b, err))
+			if err != nil {
+				w.model.RemoveChannel(sharedKey)
+			} else {
+				w.model.Delete(sharedKey, a, b)
+			}
+			w.mu.Unlock()
+			if err != nil {
+				w.noteErr("DeleteTimeRange(shared)", err)
+				w.h.Inconclusive("shared-delete-engine-error")
+				break
+			}
+			w.done("sdelete")
+			time.Sleep(100 * time.Microsecond)
+		}
 	})
 	spawn("gc", func() {
 		for i := 0; i < 400 && (i < 8 || !delDone.Load()); i++ {
@@ -482,6 +572,9 @@ func nsOf(layer string) string {
 
 func mergeInto(dst, src *cskit.Model) {
 	for _, k := range src.Keys() {
+		if _, ok := dst.Chans[k]; !ok {
+			continue // dropped from the comparison after an engine error (counted inconclusive)
+		}
 		for _, s := range src.All(k) {
 			dst.Put(k, s.TS, s.Val)
 		}
@@ -598,8 +691,15 @@ func unaryRegions(w *world, r *prng.R, u int) *cskit.Model {
 		w.done("uregions")
 		return m
 	}
-	for reg := 0; reg < 4; reg++ {
-		start := cskit.T0 + int64(u*4+reg)*1_000_000
+	nreg := 4
+	if w.layer == "delgc" {
+		nreg = 24 // inserts spread over the time the shared-channel deleter runs
+	}
+	for reg := 0; reg < nreg; reg++ {
+		if w.layer == "delgc" {
+			time.Sleep(time.Duration(r.Range(20, 400)) * time.Microsecond)
+		}
+		start := cskit.T0 + int64(u*nreg+reg)*1_000_000
 		end := start + 900_000
 		uw, _, err := udb.OpenWriter(w.ctx, verifx.UnaryWriterConfig{
 			Start: telem.TimeStamp(start), End: telem.TimeStamp(end),
